@@ -106,6 +106,9 @@ def cases(ctx):
                 fixed = ["ZZI"[:n_] if n_ == 3 else "ZZ", "-" + ("ZZI"[:n_] if n_ == 3 else "ZZ")]
                 yield {"kind": "parity-sequence", "bits": bits, "hardware": hw, "strings": fixed + strs}
             if mine():
+                yield {"kind": "parity-sequence", "bits": bits, "hardware": hw, "strings": ["Z" + "I" * (len(bits) - 1), "Z" * len(bits)],
+                       "fresh_zero": True}
+            if mine():
                 # ... and many measurements queued in ONE subroutine (single-letter strings measure the qubit itself, in place)
                 n_ = len(bits)
                 single = ["".join("Z" if j == i % n_ else "I" for j in range(n_)) for i in range(20)]
@@ -237,8 +240,10 @@ def _session(ctx, case):
         ctx.fail(case, f"{case['hardware']} hardware, history {log[-12:]}: {e}")
     except Exception as e:
         key = None
-        if case["hardware"] == "nv" and "NotAllocatedError" in str(e) and "The qubit with address 0 was not allocated" in str(e):
+        holds0 = any(getattr(q, "qubit_id", None) == 0 for q in (slots.get(k) or {}).get("qs", []))
+        if case["hardware"] == "nv" and "NotAllocatedError" in str(e) and "The qubit with address 0 was not allocated" in str(e) and not holds0:
             key = KF_ELECTRON      # the NV expansion of a gate between memory qubits borrows the electron, which nobody holds
+            # (an application whose handle SAYS id 0 and whose qubit is not there is another matter)
         ctx.fail(case, f"{case['hardware']} hardware, history {log[-12:]}: {type(e).__name__}: {str(e)[:200]}", key=key)
 
 
@@ -253,15 +258,32 @@ def _parity_sequence(ctx, case):
     from netqasm.sdk.toolbox import parity_meas
     bits, strings = case["bits"], case["strings"]
     p = Pipe(hardware=case["hardware"], max_qubits=len(bits) + 2, script=[], default_outcome=0)
+    qs = []
     try:
         with p.conn as conn:
-            qs = []
             for b in bits:
                 q = Qubit(conn)
                 if b:
                     q.X()
                 qs.append(q)
             handles = []
+            if case.get("fresh_zero"):
+                # the qubit on the lowest id is measured away and a fresh one takes its place; with nothing in between, a one-letter
+                # parity measurement of ANOTHER qubit follows (on NV that measurement needs the fresh qubit's place), then the
+                # fresh qubit is used
+                bits = list(bits)
+                gone = qs[0].measure()
+                conn.flush()
+                if int(gone) != bits[0]:
+                    ctx.fail(case, f"{case['hardware']}: measurement of a qubit in |{bits[0]}> returned {int(gone)}")
+                qs[0] = Qubit(conn)
+                first = parity_meas(qs, "I" + "Z" + "I" * (len(bits) - 2))
+                qs[0].X()
+                bits[0] = 1
+                conn.flush()
+                if int(first) != bits[1]:
+                    ctx.fail(case, f"{case['hardware']}: one-letter parity measurement right after a fresh allocation returned {int(first)} on |{bits[1]}>")
+                ctx.count("parity_right_after_fresh_allocation")
             for st in strings:
                 handles.append(parity_meas(qs, st))
                 if not case.get("one_subroutine"):
@@ -276,7 +298,8 @@ def _parity_sequence(ctx, case):
                                f"after the last flush: result {j} ({strings[j]}) reads {got[j]}, the parity is {want[j]} (all: {got} vs {want})")
     except Exception as e:
         key = None
-        if case["hardware"] == "nv" and "NotAllocatedError" in str(e) and "The qubit with address 0 was not allocated" in str(e):
+        holds0 = any(getattr(q, "qubit_id", None) == 0 for q in qs)
+        if case["hardware"] == "nv" and "NotAllocatedError" in str(e) and "The qubit with address 0 was not allocated" in str(e) and not holds0:
             key = KF_ELECTRON
         ctx.fail(case, f"{case['hardware']}: parity_meas of {strings} on |{''.join(map(str, bits))}>: {type(e).__name__}: {str(e)[:200]}", key=key)
     ctx.case(case, True)
